@@ -9,10 +9,15 @@ FIELD_NAMES = ["a", "b", "c", "d"]
 STRS = ["", "a", "b", "ab", "é", "x y", "nan"]
 
 
-def rand_cell(rng, ty, p_null=0.15, p_nan=0.1):
+BIG_INTS = [2**53, 2**53 + 1, 2**53 + 2, 2**53 + 3, 2**62, 2**62 + 1, -(2**53) - 1, -(2**53) - 2]
+
+
+def rand_cell(rng, ty, p_null=0.15, p_nan=0.1, p_big=0.0):
     if rng.random() < p_null:
         return None
     if ty == "int64":
+        if p_big and rng.random() < p_big:
+            return rng.choice(BIG_INTS)   # distinct as integers, equal as float64
         return rng.randint(-3, 6)
     if ty == "double":
         if rng.random() < p_nan:
